@@ -353,3 +353,242 @@ Definition endpoint_laws (e : endpoint) : bool :=
       | _ => if ep_parses e && ep_host e then ep_client_ok e else true
       end).
 Definition oracle_laws (f : facts) : bool := forallb endpoint_laws (f_servers f).
+
+(* ====================================================================================================
+   EXTENSION 1 — updates: an existing ClusterInfo (created from object 1) is given object 2 of the same name
+   through UpstreamClusterController.syncUpstreamCluster -> ClusterInfo.Sync.
+   ==================================================================================================== *)
+
+(* apiequality.Semantic.DeepEqual of the old and new PEM bytes (nil = empty) — relation between the two objects *)
+Record delta := { d_ss_key_same : bool; d_ss_cert_same : bool; d_ss_ca_same : bool }.
+
+Definition rest_https (f : facts) : bool :=      (* the rest config is built once, from object 1, and kept *)
+  match f_servers f with [] => true | e :: _ => ep_scheme_https e end.
+
+(* ClusterInfo.Sync(object 2) on the ClusterInfo that CreateClusterInfo(object 1) returned *)
+Definition apply_gateway_update (f1 f2 : facts) (d : delta) : ares :=
+  match f_gate f2 with
+  | GBad => Err                                                      (* syncFeatureGate *)
+  | _ =>
+      (* upstreamLimiter.syncLocalFlowControls: nothing to do when the specs are semantically equal; otherwise
+         every schema of object 2 is synced into the caches left by object 1 (removed names are deleted afterwards) *)
+      let fc := if list_eqb schema_eqb (f_schemas f1) (f_schemas f2) then Some []
+                else match sync_flowcontrols [] (f_schemas f1) with
+                     | Some m1 => sync_flowcontrols m1 (f_schemas f2)
+                     | None => None
+                     end in
+      match fc with
+      | None => Panic
+      | Some _ =>
+          (* syncSecureServingConfigLocked: only data that changed is parsed again *)
+          if negb (d_ss_ca_same d) && ss_ca (f_ss f2) && negb (ss_ca_ok (f_ss f2)) then Err
+          else if (negb (d_ss_key_same d) || negb (d_ss_cert_same d))
+                  && ss_key (f_ss f2) && ss_cert (f_ss f2) && negb (ss_pair_ok (f_ss f2)) then Err
+          (* syncEndpoints: endpoints already present are only re-flagged; new ones get transports built from the
+             rest config of object 1 *)
+          else if existsb (fun e => negb (zmem (ep_id e) (map ep_id (f_servers f1)))
+                                    && (tls_config_err (rest_https f1) (f_cc f1) || negb (ep_client_ok e))) (f_servers f2)
+          then Err else Ok
+      end
+  end.
+
+Definition ares_is_ok (a : ares) : bool := match a with Ok => true | _ => false end.
+(* second syncUpstreamCluster of a controller: an object-1 failure left nothing registered, so object 2 is created *)
+Definition apply_update_ctrl (f1 f2 : facts) (d : delta) : ares :=
+  if ares_is_ok (apply_gateway f1) then apply_gateway_update f1 f2 d else apply_gateway f2.
+(* ClusterInfo.Sync directly: only when CreateClusterInfo(object 1) returned a ClusterInfo *)
+Definition apply_update_info (f1 f2 : facts) (d : delta) : option ares :=
+  if ares_is_ok (apply_gateway f1) then Some (apply_gateway_update f1 f2 d) else None.
+(* second UpstreamConditionHandler: updateUpstreamStateCondition on the stored condition, syncLocalFlowControls
+   (NewGlobalFlowControl on a type change, ResizeGlobalFlowControl otherwise, delete of schemas without a global
+   member): every member that is read has just been tested *)
+Definition apply_limiter_update (f1 f2 : facts) : ares :=
+  let _kinds1 := map limit_detail (f_schemas f1) in
+  let _kinds2 := map limit_detail (f_schemas f2) in
+  Ok.
+
+(* ====================================================================================================
+   EXTENSION 2 — the remote rate limiter: one reconcile round of a gateway
+   (upstreamLimiter.Sync; reconcile.updateGlobalCuntFlowControls; buildLimitConditions ->
+   rateLimiter.UpdateRateLimitConditionStatus -> updateFlowControls; Load), for a sequence of versions,
+   with a second gateway replica that starts on the last version.
+   [fixes]: which of the three repairs of build/fixes/C16_*.diff are present.
+   ==================================================================================================== *)
+Inductive dkind := DMri | DTb.                      (* which member a LimitItemDetail carries *)
+Definition dkind_eqb (a b : dkind) : bool := match a, b with DMri, DMri | DTb, DTb => true | _, _ => false end.
+Definition kind_type (k : dkind) : fctype := match k with DMri => TMaxInflight | DTb => TTokenBucket end.
+Definition type_kind (t : fctype) : option dkind :=
+  match t with TMaxInflight => Some DMri | TTokenBucket => Some DTb | TExempt => None end.
+
+(* toFlowControlLimit on the limiter side / the member updateGlobalCuntFlowControls copies *)
+Definition global_kind (s : schema) : option dkind :=
+  if negb (is_nil (s_gmri s)) then Some DMri else if negb (is_nil (s_gtb s)) then Some DTb else None.
+(* remote.EnableGlobalFlowControl *)
+Definition enable_global (s : schema) : bool :=
+  ((s_strategy s =? 2) || (s_strategy s =? 3)) && (negb (is_nil (s_gtb s)) || negb (is_nil (s_gmri s))).
+
+(* flowControlCache.remote: absent | enabled, no limiter inside yet | limiter of that kind inside *)
+Inductive rstate := RNone | REnabled | RKind (k : dkind).
+
+Record gcache := { g_cfg : schema; g_type : option fctype; g_remote : rstate }.
+Definition fresh_cache : gcache := {| g_cfg := zero_schema; g_type := None; g_remote := RNone |}.
+
+Record fixes := {
+  fx_stale_remote : bool;     (* C16_stale_remote_limiter_after_type_change.diff: localWrapper.Sync drops the remote wrapper on a type change *)
+  fx_stale_status : bool;     (* C16_limiter_stale_status_after_type_change.diff: nil guards in calculateUpstreamCondition *)
+  fx_no_limiter : bool;       (* C16_remote_wrapper_without_limiter.diff: a wrapper without limiter is not asked for its type *)
+}.
+Definition all_fixes : fixes := {| fx_stale_remote := true; fx_stale_status := true; fx_no_limiter := true |}.
+
+(* localWrapper.Sync, with what it does to the remote wrapper; None = panic *)
+Definition glocal_sync (fx : fixes) (c : gcache) (s : schema) : option gcache :=
+  if schema_eqb s (g_cfg c) then Some c
+  else if negb (touch_members (guess_type s) s) then None
+  else
+    let same_type := match g_type c with Some t => fctype_eqb t (guess_type s) | None => false end in
+    if same_type
+    then Some {| g_cfg := s; g_type := g_type c; g_remote := if enable_global s then g_remote c else RNone |}
+    else Some {| g_cfg := s; g_type := Some (guess_type s); g_remote := if fx_stale_remote fx then RNone else g_remote c |}.
+
+Fixpoint alookup {A} (n : Z) (m : list (Z * A)) : option A :=
+  match m with [] => None | (k, c) :: r => if k =? n then Some c else alookup n r end.
+Fixpoint astore {A} (n : Z) (c : A) (m : list (Z * A)) : list (Z * A) :=
+  match m with
+  | [] => [(n, c)]
+  | (k, c0) :: r => if k =? n then (k, c) :: r else (k, c0) :: astore n c r
+  end.
+
+Fixpoint gsync_each (fx : fixes) (m : list (Z * gcache)) (l : list schema) : option (list (Z * gcache)) :=
+  match l with
+  | [] => Some m
+  | s :: r =>
+      let c := match alookup (s_name s) m with Some c => c | None => fresh_cache end in
+      match glocal_sync fx c s with
+      | None => None
+      | Some c' => gsync_each fx (astore (s_name s) c' m) r
+      end
+  end.
+
+Record gateway := { gw_spec : list schema; gw_caches : list (Z * gcache) }.
+Definition fresh_gateway : gateway := {| gw_spec := []; gw_caches := [] |}.
+
+(* upstreamLimiter.Sync *)
+Definition gsync (fx : fixes) (g : gateway) (l : list schema) : option gateway :=
+  if list_eqb schema_eqb (gw_spec g) l then Some g
+  else match gsync_each fx (gw_caches g) l with
+       | None => None
+       | Some m => Some {| gw_spec := l;
+                           gw_caches := filter (fun p => zmem (fst p) (map s_name l)) m |}   (* deleted names *)
+       end.
+
+(* reconcile.updateGlobalCuntFlowControls: every globalCount schema gets a wrapper; remoteWrapper.Sync keeps the
+   answer only if sanitize finds the matching global member (never panics) *)
+Definition count_pass (g : gateway) : gateway :=
+  {| gw_spec := gw_spec g;
+     gw_caches := map (fun p =>
+       let c := snd p in
+       if s_strategy (g_cfg c) =? 3
+       then (fst p, {| g_cfg := g_cfg c; g_type := g_type c;
+                       g_remote := match global_kind (g_cfg c) with
+                                   | Some k => RKind k
+                                   | None => match g_remote c with RNone => REnabled | r => r end
+                                   end |})
+       else p) (gw_caches g) |}.
+
+(* limiter server state that matters here: per instance, the (schema name, kind of the reported status) it stored *)
+Definition limstate := list (Z * list (Z * option dkind)).
+
+Fixpoint last_named (n : Z) (l : list schema) : option schema :=
+  match l with
+  | [] => None
+  | s :: r => match last_named n r with Some x => Some x | None => if s_name s =? n then Some s else None end
+  end.
+
+Definition selected (c : gcache) : bool := (s_strategy (g_cfg c) =? 2) && enable_global (g_cfg c).
+Definition item_kind (fx : fixes) (c : gcache) : option dkind :=      (* getRateLimitItemConfiguration *)
+  match g_remote c with RKind k => Some k | _ => None end.
+Definition status_kind (c : gcache) : option dkind :=                 (* getRateLimitItemStatus *)
+  match g_remote c with
+  | RKind k => Some k
+  | _ => match g_type c with Some t => type_kind t | None => None end
+  end.
+Definition optk_eqb (a b : option dkind) : bool := opt_eqb dkind_eqb a b.
+
+(* remoteWrapper.sanitize on the answered item (members [rm], [rt]) against the local schema *)
+Definition sanitize_kind (rm rt : bool) (s : schema) : option dkind :=
+  if rm && negb (is_nil (s_gmri s)) then Some DMri
+  else if rt && negb (is_nil (s_gtb s)) then Some DTb else None.
+
+Inductive rres := RSkip | ROk | RErr | RPanic.
+
+(* the allocate round trip of instance [inst] for the version [l] the limiter's handler has seen *)
+Definition alloc_pass (fx : fixes) (inst : Z) (lower : bool) (l : list schema) (g : gateway) (ls : limstate)
+  : rres * gateway * limstate :=
+  let sel := filter (fun p => selected (snd p)) (gw_caches g) in
+  (* buildLimitConditions *)
+  if negb (fx_no_limiter fx) && existsb (fun p => match g_remote (snd p) with REnabled => true | _ => false end) sel
+  then (RPanic, g, ls)
+  (* UpdateRateLimitConditionStatus: the state condition is stored under the object's own name *)
+  else if negb lower then (RErr, g, ls)
+  else if existsb (fun p => match item_kind fx (snd p) with
+                            | Some k => negb (optk_eqb (Some k) (global_kind (g_cfg (snd p))))
+                            | None => false end) sel
+  then (RErr, g, ls)
+  else
+    let ls' := astore inst (map (fun p => (fst p, status_kind (snd p))) sel) ls in
+    (* calculateUpstreamCondition over every stored condition *)
+    if negb (fx_stale_status fx)
+       && existsb (fun ic => existsb (fun ns => match snd ns, last_named (fst ns) l with
+                                                | Some k, Some s => negb (optk_eqb (Some k) (global_kind s))
+                                                | _, _ => false end) (snd ic)) ls'
+    then (RPanic, g, ls')
+    else
+      (* updateFlowControls: the answer carries the reported member and the member of the upstream's type *)
+      let g' := {| gw_spec := gw_spec g;
+                   gw_caches := map (fun p =>
+                     let c := snd p in
+                     if selected c
+                     then let has k := optk_eqb (item_kind fx c) (Some k) || optk_eqb (global_kind (g_cfg c)) (Some k) in
+                          (fst p, {| g_cfg := g_cfg c; g_type := g_type c;
+                                     g_remote := match sanitize_kind (has DMri) (has DTb) (g_cfg c) with
+                                                 | Some k => RKind k
+                                                 | None => match g_remote c with RNone => REnabled | r => r end
+                                                 end |})
+                     else p) (gw_caches g) |} in
+      (ROk, g', ls')
+  .
+
+Record round_res := { rr_sync : rres; rr_count : rres; rr_alloc : rres; rr_load : rres }.
+Definition dead_round (s c a : rres) : round_res := {| rr_sync := s; rr_count := c; rr_alloc := a; rr_load := RSkip |}.
+
+(* one round of a live gateway; None = the gateway is dead (a step panicked) *)
+Definition round (fx : fixes) (inst : Z) (lower : bool) (l : list schema) (g : option gateway) (ls : limstate)
+  : round_res * option gateway * limstate :=
+  match g with
+  | None => (dead_round RSkip RSkip RSkip, None, ls)
+  | Some g0 =>
+      match gsync fx g0 l with
+      | None => (dead_round RPanic RSkip RSkip, None, ls)
+      | Some g1 =>
+          let g2 := count_pass g1 in
+          match alloc_pass fx inst lower l g2 ls with
+          | (RPanic, _, ls') => (dead_round ROk ROk RPanic, None, ls')
+          | (a, g3, ls') => ({| rr_sync := ROk; rr_count := ROk; rr_alloc := a; rr_load := ROk |}, Some g3, ls')
+          end
+      end
+  end.
+
+(* gateway A applies every version in turn; for more than one version, replica B then starts on the last one *)
+Fixpoint rounds_a (fx : fixes) (lower : bool) (vs : list (list schema)) (g : option gateway) (ls : limstate)
+  : list round_res * limstate :=
+  match vs with
+  | [] => ([], ls)
+  | l :: r => let '(rr, g', ls') := round fx 1 lower l g ls in
+              let '(rest, ls'') := rounds_a fx lower r g' ls' in (rr :: rest, ls'')
+  end.
+Definition remote_rounds (fx : fixes) (lower : bool) (vs : list (list schema)) : list round_res :=
+  let '(ra, ls) := rounds_a fx lower vs (Some fresh_gateway) [] in
+  match vs with
+  | _ :: _ :: _ => let '(rb, _, _) := round fx 2 lower (last vs []) (Some fresh_gateway) ls in ra ++ [rb]
+  | _ => ra
+  end.
